@@ -35,7 +35,7 @@ pub fn gen_dict_program(t: &mut Tape) -> DictOut {
         Lit::Str("0".into()),
         Lit::Str("k2".into()),
     ];
-    let nk = 2 + t.weighted(&[30, 30, 20, 12, 8]);
+    let nk = 2 + t.weighted(&[28, 26, 16, 10, 6, 3, 3, 3, 3, 2]);
     while keys.len() < nk {
         let k = pool[t.pick(pool.len())].clone();
         if !keys.contains(&k) {
@@ -55,9 +55,26 @@ pub fn gen_dict_program(t: &mut Tape) -> DictOut {
         let es: Vec<Expr> = (0..ns).map(|i| strlit(&format!("s{}", i))).collect();
         s.push(Stmt::Push { array: pvar(&x), value: Some(PushRhs::List(es)) });
     }
-    let non_string_at = if t.chance(1, 4) { Some(t.pick(keys.len())) } else { None };
+    // which values are not strings: none (half of the programs), one, or an independent choice per key — a failing
+    // join must name the same offender every time even when several distinct ones sit in the dictionary part
+    let mode = t.weighted(&[50, 15, 35]);
+    let one_at = t.pick(keys.len());
     for (i, k) in keys.iter().enumerate() {
-        let v = if Some(i) == non_string_at { num(i as f64) } else { strlit(&format!("v{}{}", i, gen_string(t).chars().filter(|c| c.is_alphanumeric()).take(3).collect::<String>())) };
+        let non_string = match mode {
+            0 => false,
+            1 => i == one_at,
+            _ => t.chance(1, 2),
+        };
+        let v = if non_string {
+            match t.pick(5) {
+                0 | 1 => num(i as f64 + 1.0),
+                2 => lit(Lit::Bool(i % 2 == 0)),
+                3 => lit(Lit::Null),
+                _ => num(0.5 + i as f64),
+            }
+        } else {
+            strlit(&format!("v{}{}", i, gen_string(t).chars().filter(|c| c.is_alphanumeric()).take(3).collect::<String>()))
+        };
         s.push(Stmt::Assign { dest: sub(&x, k.clone()), value: vec![v], op: None });
     }
     // a copy built in another insertion order
